@@ -212,7 +212,14 @@ func matrix(specs []srvSpec) []cell {
 									us = userSpecs[[]int{0, 4, 6, 7}[(si+ti)%4]]
 								}
 								kind := []string{"dialtls", "handshake"}[(si+ti+force)%2]
-								on := []op{{K: kind, TLS: &us, W: kind == "dialtls" && (si+force)%2 == 1}} // wrapped pkg/tls.Conn
+								wrapped := kind == "dialtls" && (si+force)%2 == 1
+								if force == 0 && kind == "dialtls" {
+									// nothing forced + a wrapped pkg/tls.Conn from the caller's function: the ALPN result it reports
+									// must select the version (configurations that offer h2 and are acceptable to most origins)
+									wrapped = true
+									us = userSpecs[[]int{0, 7, 6, 0}[(si+ti)%4]]
+								}
+								on := []op{{K: kind, TLS: &us, W: wrapped}}
 								off := []op{{K: kind, TLS: &tlsSpec{Nil: true}}}
 								switch (si + 2*ti + force) % 4 {
 								case 0:
